@@ -175,6 +175,54 @@ def merkle_update(a: RCell, b: RCell) -> RCell:
     return RCell(bytes_to_bits(data), (a, b), True)
 
 
+def spec_invalid(c: RCell):
+    """None if this single cell is a well-formed TON cell given its children, else the reason (DataCell.cpp checks):
+    exotic cells have their exact data layout, Merkle cells commit to their children's level-0 hash and depth,
+    level <= 3, depth <= 1023 at every level."""
+    t = c.type
+    n = len(c.bits)
+    if c.special:
+        if n < 8:
+            return 'special cell shorter than its type byte'
+        if t == PRUNED:
+            if c.refs:
+                return 'pruned branch with references'
+            if n < 16:
+                return 'pruned branch without mask'
+            m = int(c.bits[8:16], 2)
+            if not 1 <= m <= 7:
+                return 'pruned branch mask out of range'
+            if n != 16 + bin(m).count('1') * (256 + 16):
+                return 'pruned branch length'
+        elif t == LIBRARY:
+            if c.refs or n != 8 + 256:
+                return 'library cell layout'
+        elif t == MPROOF:
+            if len(c.refs) != 1 or n != 8 + 256 + 16:
+                return 'merkle proof layout'
+            d = c.data_padded()
+            if d[1:33] != c.refs[0].H(0) or int.from_bytes(d[33:35], 'big') != c.refs[0].D(0):
+                return 'merkle proof does not commit to its child'
+        elif t == MUPDATE:
+            if len(c.refs) != 2 or n != 8 + 512 + 32:
+                return 'merkle update layout'
+            d = c.data_padded()
+            if d[1:33] != c.refs[0].H(0) or d[33:65] != c.refs[1].H(0) or \
+                    int.from_bytes(d[65:67], 'big') != c.refs[0].D(0) or int.from_bytes(d[67:69], 'big') != c.refs[1].D(0):
+                return 'merkle update does not commit to its children'
+        else:
+            return 'unknown exotic type'
+    try:
+        if c.mask() > 7:
+            return 'level above 3'
+    except RefCellError as e:
+        return str(e)
+    for i in range(4):
+        if c.D(i) > 1023:
+            return 'depth above 1023'
+    return None
+
+
 # -- DAG helpers ------------------------------------------------------------------------------------
 
 def topo(roots):
